@@ -41,6 +41,14 @@ pub struct Scn {
     #[serde(default)]
     pub io_fault_rate: usize,
     pub ops: Vec<Sec>,
+    /// indices of seconds after which a long-lived searcher (created at the first of them) runs a
+    /// query while the writer goes on: its position cache then survives roll-overs and retention
+    #[serde(default)]
+    pub probes: Vec<usize>,
+    /// restart after crash: at every `restart_every`-th crash state a new writer is created on the
+    /// crashed directory and writes two more seconds before the directory is searched again (0 = never)
+    #[serde(default)]
+    pub restart_every: u32,
 }
 
 pub struct C19;
@@ -132,8 +140,10 @@ impl Prop for C19 {
                 },
             })
             .collect();
+        let probes: Vec<usize> = if rng.chance(1, 2) { (0..rng.range(1, 2)).map(|_| rng.below(nsec) as usize).collect() } else { vec![] };
+        let restart_every = if rng.chance(1, 2) { *rng.pick(&[7u32, 23, 61]) } else { 0 };
         let max_size = if many { *rng.pick(&[1u64, 100]) } else { *rng.pick(&[150u64, 200, 400, 1000, 2000, 1 << 20]) };
-        serde_json::to_value(Scn { epoch_ns, max_size, max_files: rng.range(1, 4) as usize, res, crash: !rng.chance(1, 4), io_fault_rate: if rng.chance(1, 3) { *rng.pick(&[50usize, 200, 500]) } else { 0 }, ops }).unwrap()
+        serde_json::to_value(Scn { epoch_ns, max_size, max_files: rng.range(1, 4) as usize, res, crash: !rng.chance(1, 4), io_fault_rate: if rng.chance(1, 3) { *rng.pick(&[50usize, 200, 500]) } else { 0 }, ops, probes, restart_every }).unwrap()
     }
 
     fn execute(&self, scenario: &Value, cov: &mut Cov) -> RunResult {
@@ -331,11 +341,12 @@ fn check_from(d: &Disk, creation_sec: u64, b: u64, max: usize, got: &[MetricItem
     None
 }
 
-fn searches(dir: &str, d: &Disk, creation_sec: u64, secs: &[u64], res: &[String], full: bool, ctx: &str, crashed: bool, cov: &mut Cov) -> Option<(String, String)> {
+fn searches(dir: &str, d: &Disk, creation_sec: u64, secs: &[u64], res: &[String], full: bool, ctx: &str, crashed: bool, long_lived: Option<&DefaultMetricSearcher>, cov: &mut Cov) -> Option<(String, String)> {
     let searcher = match DefaultMetricSearcher::new(dir.to_string(), BASE.to_string()) {
         Ok(s) => s,
         Err(e) => return Some(("C19/searcher-construction-error".into(), e.to_string())),
     };
+    let rounds = if !full { 1 } else if long_lived.is_some() { 3 } else { 2 };
     let tag = if crashed { "crash" } else { "nocrash" };
     if secs.is_empty() {
         return None;
@@ -360,14 +371,18 @@ fn searches(dir: &str, d: &Disk, creation_sec: u64, secs: &[u64], res: &[String]
     } else {
         resources.push(res[0].clone());
     }
-    for round in 0..if full { 2 } else { 1 } {
-        // round 1 re-uses the same searcher (position cache)
+    for round in 0..rounds {
+        // round 1 re-uses the same searcher (position cache); round 2 uses the searcher that was created and
+        // used while the writer was still going (its cache may name files that retention has removed since)
+        let suffix = ["", "/reused-searcher", "/long-lived-searcher"][round];
         for (b, e) in &windows {
             for r in &resources {
                 let fresh;
                 let s = if round == 0 && full {
                     fresh = DefaultMetricSearcher::new(dir.to_string(), BASE.to_string()).unwrap();
                     &fresh
+                } else if round == 2 {
+                    long_lived.unwrap()
                 } else {
                     &searcher
                 };
@@ -375,12 +390,12 @@ fn searches(dir: &str, d: &Disk, creation_sec: u64, secs: &[u64], res: &[String]
                 match s.find_by_time_and_resource(b * 1000 + 7, e * 1000 + 999, r) {
                     Ok(items) => {
                         if let Some((sig, det)) = check_range(d, creation_sec, *b, *e, r, &items, ctx, crashed) {
-                            return Some((if round == 1 { format!("{}/reused-searcher", sig) } else { sig }, det));
+                            return Some((format!("{}{}", sig, suffix), det));
                         }
                     }
                     Err(err) => {
                         if d.nfiles > 0 {
-                            return Some((format!("C19/{}/range-search-error", tag), format!("{}: {}", ctx, err)));
+                            return Some((format!("C19/{}/range-search-error{}", tag, suffix), format!("{}: {}", ctx, err)));
                         }
                     }
                 }
@@ -394,6 +409,8 @@ fn searches(dir: &str, d: &Disk, creation_sec: u64, secs: &[u64], res: &[String]
                 let s = if round == 0 && full {
                     fresh = DefaultMetricSearcher::new(dir.to_string(), BASE.to_string()).unwrap();
                     &fresh
+                } else if round == 2 {
+                    long_lived.unwrap()
                 } else {
                     &searcher
                 };
@@ -401,12 +418,12 @@ fn searches(dir: &str, d: &Disk, creation_sec: u64, secs: &[u64], res: &[String]
                 match s.find_from_time_with_max_lines(b * 1000, *m) {
                     Ok(items) => {
                         if let Some((sig, det)) = check_from(d, creation_sec, *b, *m, &items, ctx, crashed) {
-                            return Some((if round == 1 { format!("{}/reused-searcher", sig) } else { sig }, det));
+                            return Some((format!("{}{}", sig, suffix), det));
                         }
                     }
                     Err(err) => {
                         if d.nfiles > 0 {
-                            return Some((format!("C19/{}/limited-search-error", tag), format!("{}: {}", ctx, err)));
+                            return Some((format!("C19/{}/limited-search-error{}", tag, suffix), format!("{}: {}", ctx, err)));
                         }
                     }
                 }
@@ -416,9 +433,18 @@ fn searches(dir: &str, d: &Disk, creation_sec: u64, secs: &[u64], res: &[String]
     None
 }
 
+/// begin second of a query between writes: alternates between the second just written and an earlier one
+fn rng_pick(secs: &[u64], i: usize) -> &u64 {
+    if i % 2 == 0 || secs.len() < 2 {
+        secs.last().unwrap()
+    } else {
+        &secs[secs.len() / 2]
+    }
+}
+
 /// The writer phase of a scenario: configuration, a new writer, one write call per second of the
 /// history, everything below `live` recorded by the file-system seam (started here, stopped by the caller).
-fn write_history(sc: &Scn, live: &str, w: &mut World, cov: &mut Cov) -> Result<(DefaultMetricLogWriter, Vec<u64>), Violation> {
+fn write_history(sc: &Scn, live: &str, w: &mut World, cov: &mut Cov) -> Result<(DefaultMetricLogWriter, Vec<u64>, Option<DefaultMetricSearcher>), Violation> {
     let mut cfg = ConfigEntity::new();
     cfg.config.app.app_name = APP.into();
     cfg.config.log.metric.dir = live.to_string();
@@ -437,6 +463,7 @@ fn write_history(sc: &Scn, live: &str, w: &mut World, cov: &mut Cov) -> Result<(
     };
     let mut sec = creation_sec;
     let mut secs = vec![];
+    let mut long_lived: Option<DefaultMetricSearcher> = None;
     for (i, s) in sc.ops.iter().enumerate() {
         sec += s.gap.max(1);
         let ts = sec * 1000 + 123;
@@ -458,8 +485,51 @@ fn write_history(sc: &Scn, live: &str, w: &mut World, cov: &mut Cov) -> Result<(
         }
         secs.push(sec);
         w.ops += 1;
+        if sc.probes.contains(&i) {
+            // a searcher that lives as long as the process: queries between two writes
+            if long_lived.is_none() {
+                long_lived = DefaultMetricSearcher::new(live.to_string(), BASE.to_string()).ok();
+            }
+            if let Some(ls) = &long_lived {
+                cov.hit("queries_between_writes");
+                // reference: what is on disk right now (retention may already have removed the second just written)
+                let mut now_files: BTreeMap<String, Vec<u8>> = BTreeMap::new();
+                if let Ok(rd) = std::fs::read_dir(live) {
+                    for e in rd.flatten() {
+                        now_files.insert(e.file_name().to_string_lossy().to_string(), std::fs::read(e.path()).unwrap_or_default());
+                    }
+                }
+                let d_now = read_disk(&now_files);
+                let ctx = format!("query between two writes, after second {} (index {}) was written", sec, i);
+                let from = *rng_pick(&secs, i);
+                match ls.find_by_time_and_resource(from * 1000, sec * 1000 + 999, &String::new()) {
+                    Ok(items) => {
+                        if let Some((sig, det)) = check_range(&d_now, creation_sec, from, sec, "", &items, &ctx, false) {
+                            let _ = fsseam::stop();
+                            return Err(Violation::new(format!("{}/between-writes", sig), i, det));
+                        }
+                    }
+                    Err(e) => {
+                        let _ = fsseam::stop();
+                        return Err(Violation::new("C19/nocrash/range-search-error/between-writes", i, format!("{}: {}", ctx, e)));
+                    }
+                }
+                match ls.find_from_time_with_max_lines(from * 1000, 1000) {
+                    Ok(items) => {
+                        if let Some((sig, det)) = check_from(&d_now, creation_sec, from, 1000, &items, &ctx, false) {
+                            let _ = fsseam::stop();
+                            return Err(Violation::new(format!("{}/between-writes", sig), i, det));
+                        }
+                    }
+                    Err(e) => {
+                        let _ = fsseam::stop();
+                        return Err(Violation::new("C19/nocrash/limited-search-error/between-writes", i, format!("{}: {}", ctx, e)));
+                    }
+                }
+            }
+        }
     }
-    Ok((writer, secs))
+    Ok((writer, secs, long_lived))
 }
 
 fn run(sc: &Scn, root: &str, w: &mut World, tr: &mut Trace, cov: &mut Cov) -> Option<Violation> {
@@ -468,7 +538,7 @@ fn run(sc: &Scn, root: &str, w: &mut World, tr: &mut Trace, cov: &mut Cov) -> Op
     let _ = std::fs::remove_dir_all(root);
     std::fs::create_dir_all(&live).expect("mkdir");
     let creation_sec = sc.epoch_ns / SEC;
-    let (writer, secs) = match write_history(sc, &live, w, cov) {
+    let (writer, secs, long_lived) = match write_history(sc, &live, w, cov) {
         Ok(x) => x,
         Err(v) => return Some(v),
     };
@@ -501,8 +571,8 @@ fn run(sc: &Scn, root: &str, w: &mut World, tr: &mut Trace, cov: &mut Cov) -> Op
     if d.nfiles >= 2 {
         cov.hit("histories_with_roll_over");
     }
-    let run_search = |dir: &str, d: &Disk, full: bool, ctx: &str, crashed: bool, cov: &mut Cov| -> Option<(String, String)> {
-        let r = std::panic::catch_unwind(std::panic::AssertUnwindSafe(|| searches(dir, d, creation_sec, &secs, &sc.res, full, ctx, crashed, cov)));
+    let run_search = |dir: &str, d: &Disk, secs: &[u64], full: bool, ctx: &str, crashed: bool, long_lived: Option<&DefaultMetricSearcher>, cov: &mut Cov| -> Option<(String, String)> {
+        let r = std::panic::catch_unwind(std::panic::AssertUnwindSafe(|| searches(dir, d, creation_sec, secs, &sc.res, full, ctx, crashed, long_lived, cov)));
         match r {
             Ok(x) => x,
             Err(_) => {
@@ -511,7 +581,7 @@ fn run(sc: &Scn, root: &str, w: &mut World, tr: &mut Trace, cov: &mut Cov) -> Op
             }
         }
     };
-    if let Some((sig, det)) = run_search(&live, &d, true, "uncrashed directory", false, cov) {
+    if let Some((sig, det)) = run_search(&live, &d, &secs, true, "uncrashed directory", false, long_lived.as_ref(), cov) {
         return Some(Violation::new(sig, sc.ops.len(), det));
     }
     tr.word(d.lines.len() as u64);
@@ -532,8 +602,61 @@ fn run(sc: &Scn, root: &str, w: &mut World, tr: &mut Trace, cov: &mut Cov) -> Op
                     cov.hit("crash_states_with_torn_index_entry");
                 }
                 let ctx = format!("crash before op {} (+{} bytes) of {:?}", i, extra, match op { FsOp::Write(p, b) => format!("write {} bytes to {}", b.len(), &p[live.len()..]), FsOp::Create(p) => format!("create {}", &p[live.len()..]), FsOp::Unlink(p) => format!("unlink {}", &p[live.len()..]) });
-                if let Some((sig, det)) = run_search(&synth, &d, false, &ctx, true, cov) {
+                if let Some((sig, det)) = run_search(&synth, &d, &secs, false, &ctx, true, None, cov) {
                     return Some(Violation::new(sig, i, det));
+                }
+                // ---- (3) restart after crash: a new writer on the crashed directory
+                if sc.restart_every > 0 && states % sc.restart_every as u64 == 0 {
+                    cov.hit("restarts_after_crash");
+                    let mut cfg = ConfigEntity::new();
+                    cfg.config.app.app_name = APP.into();
+                    cfg.config.log.metric.dir = synth.clone();
+                    cfg.config.log.metric.use_pid = false;
+                    cfg.config.log.metric.flush_interval_sec = 0;
+                    cfg.config.use_cache_time = false;
+                    sentinel_core::config::reset_global_config(cfg);
+                    let restart_sec = secs.last().cloned().unwrap_or(creation_sec) + 2;
+                    vc::set((restart_sec * 1000 + 500) * MS);
+                    let rctx = format!("{}; then a new writer on that directory wrote two more seconds", ctx);
+                    let outcome = std::panic::catch_unwind(std::panic::AssertUnwindSafe(|| -> Result<Vec<u64>, String> {
+                        let mut wr = DefaultMetricLogWriter::new(sc.max_size, sc.max_files).map_err(|e| e.to_string())?;
+                        let mut more = vec![];
+                        for k in [1u64, 3] {
+                            let sec = restart_sec + k;
+                            let ts = sec * 1000 + 123;
+                            vc::set(ts * MS);
+                            let line = format!("{}|x|{}|{}|1|2|0|9|0|1|0", ts, sc.res[0], 10 + k);
+                            let mut items = vec![MetricItem::from_string(&line).expect("item")];
+                            wr.write(ts, &mut items).map_err(|e| e.to_string())?;
+                            more.push(sec);
+                        }
+                        Ok(more)
+                    }));
+                    let more = match outcome {
+                        Ok(Ok(m)) => m,
+                        Ok(Err(e)) => return Some(Violation::new("C19/restart/writer-error-on-crashed-directory", i, format!("{}: {}", rctx, e))),
+                        Err(_) => {
+                            let (loc, msg) = crate::seams::take_last_panic().unwrap_or_default();
+                            return Some(Violation::new(format!("C19/restart/writer-panics@{}", loc.trim_start_matches("sentinel-core/src/core/")), i, format!("{}: {}", rctx, msg)));
+                        }
+                    };
+                    let mut after: BTreeMap<String, Vec<u8>> = BTreeMap::new();
+                    if let Ok(rd) = std::fs::read_dir(&synth) {
+                        for e in rd.flatten() {
+                            after.insert(e.file_name().to_string_lossy().to_string(), std::fs::read(e.path()).unwrap_or_default());
+                        }
+                    }
+                    let d2 = read_disk(&after);
+                    // (retention may remove even the file just written when the size limit is tiny: the reference
+                    // is what the directory holds after the restart, not what the second writer was given)
+                    if more.iter().any(|sec| d2.lines.iter().any(|l| l.sec == *sec)) {
+                        cov.hit("restarts_whose_new_lines_survive_retention");
+                    }
+                    let mut secs2 = secs.clone();
+                    secs2.extend(more.iter().cloned());
+                    if let Some((sig, det)) = run_search(&synth, &d2, &secs2, false, &rctx, true, None, cov) {
+                        return Some(Violation::new(sig.replace("C19/crash/", "C19/restart/"), i, det));
+                    }
                 }
             }
         }
@@ -560,7 +683,7 @@ pub fn kill_child_main(scenario_file: &str, nops: usize, extra: usize, root: &st
     let mut cov = Cov::default();
     fsseam::set_kill(nops, extra);
     let r = write_history(&sc, &live, &mut w, &mut cov);
-    if let Ok((writer, _)) = r {
+    if let Ok((writer, _, _)) = r {
         drop(writer);
     }
     std::process::exit(3);
@@ -586,7 +709,7 @@ pub fn validate_main(n: u64, seed: u64) -> i32 {
         let mut w = World::start(sc.epoch_ns);
         let mut cov = Cov::default();
         let log = match write_history(&sc, &live, &mut w, &mut cov) {
-            Ok((writer, _)) => {
+            Ok((writer, _, _)) => {
                 drop(writer);
                 fsseam::stop()
             }
